@@ -201,7 +201,13 @@ def run_grids(rec, seed, shard, nshards, tier):
     rec.exhaustive = True
 
 
+# scale: 59 049 base structures, so that the queue holds more than 50 000 entries from the start; the i-th emitted pre-terminal must
+# have the i-th largest probability of the ruleset and may not have been emitted before (shared with C01)
+from .c01 import prop_large_queue, run_large_queue  # noqa: E402
+
+
 PARTS = [
+    Part('large_queue', run_large_queue, prop_large_queue, {'quick': 1, 'thorough': 1}),
     Part('random_rulesets', run_random, prop, {'quick': 8, 'thorough': 16}),
     Part('exhaustive_grids', run_grids, prop, {'quick': 8, 'thorough': 16}),
     Part('long_structures', run_long, prop, {'quick': 3, 'thorough': 8}),
